@@ -41,6 +41,12 @@ def execute(case):
             data[s["rawkey"]] = o
     tr = {"id": case["id"], "srcs": [{"key": s["key"], "obs": s["obs"]} for s in srcs], "islist": mode != "dict",
           "rows": [], "labels": [], "constc": [], "offc": [], "trendc": [], "raised": False}
+    if mode == "dict":
+        ks = np.array([s["rawkey"] for s in srcs])
+        uq = list(np.unique(ks))
+        tr["rank"] = [uq.index(k) + 1 for k in ks]
+    else:
+        tr["rank"] = list(range(1, len(srcs) + 1))
     try:
         all_data, ids, M = validate_prepare_data(data, case["poly_trend"], len(srcs) - 1)
     except Exception as ex:
@@ -76,6 +82,8 @@ def run(ctx, selftest=False):
                 "x 30 epochs; distinct = distinct (sources, mode, key order); trivial = one survey")
     ctx.assumptions = ["TLC/SANY", "astropy Time/units", "identity of an observation is recovered from its value (rv=id, err=id/8)"]
     ctx.model_check("MultiSurveyAlg", "MC_MultiSurveyAlg.cfg", coverage=True)
+    # the named deviation, enabled: every behaviour is either right or exactly KF_IdsNotPermuted (classifier is sound)
+    ctx.model_check("MultiSurveyAlg", "MC_MultiSurveyAlg_dev.cfg")
     r = ctx.model_check("MultiSurveyAlg", "MC_MultiSurveyAlg_export.cfg", workers=1)
     rnd = random.Random(ctx.seed * 611953 + 8)
     names = [["a", "b", "c", "d"], [10, 20, 30, 40], ["S2", "S10", "S3", "S1"], [3, 1, 2, 0]]
